@@ -110,6 +110,21 @@ pub fn main() -> i32 {
             replay(&args[2], &args[3])
         }
         "selftest" => super::selftest::run(),
+        "find-underflow" => {
+            // development aid: find a tuple whose SYN cookie is 0xFFFFFFFF under the given key
+            let k0: u64 = args.get(2).and_then(|s| s.parse().ok()).unwrap_or(1);
+            let k1: u64 = args.get(3).and_then(|s| s.parse().ok()).unwrap_or(2);
+            let nt = 16u64;
+            let span = (1u64 << 34) / nt;
+            let handles: Vec<_> = (0..nt).map(|t| std::thread::spawn(move || super::props::c07::search_underflow([k0, k1], span * t, span))).collect();
+            for h in handles {
+                if let Ok(Some(u)) = h.join() {
+                    println!("{}", serde_json::to_string(&u).unwrap_or_default());
+                    return 0;
+                }
+            }
+            1
+        }
         other => {
             eprintln!("unknown mode {}", other);
             2
